@@ -522,7 +522,7 @@ fn run_hook(p: &Plan, j: u64, stats: &mut Stats) -> Result<(), Fail> {
     check(&o, &p.models[k], &p.models[k + 1], &p.canon, &format!("crash inside step {k} ({}) at crash point '{tag}'", p.steps[k].name()), &format!("crash-inside-{}", p.steps[k].name()), stats)
 }
 
-fn run_case(c: &Case) -> Outcome {
+fn run_case(c: &Case, all_boundaries: bool) -> Outcome {
     let p = plan(c);
     let mut stats = Stats::default();
     let n = p.steps.len();
@@ -531,6 +531,12 @@ fn run_case(c: &Case) -> Outcome {
         Err((s, d)) => return Outcome::fail(s, d),
     };
     for k in 0..=n {
+        // quick tier: pass A already restarts at every boundary; the "first restart" variant is run at every
+        // boundary of short histories, else after the steps that matter for recovery, every 4th and the last
+        let wanted = all_boundaries || n <= 10 || k == n || k % 4 == 0 || matches!(p.steps[k.max(1) - 1], Step::Purge(_) | Step::Install { .. } | Step::Build | Step::Truncate(_));
+        if !wanted {
+            continue;
+        }
         if let Err((s, d)) = run_boundary(&p, k, &mut stats) {
             return Outcome::fail(s, d);
         }
@@ -562,12 +568,13 @@ fn main() {
     check.rule(
         "histories of 1..30 operations on a real RocksStore as openraft drives it (contiguous appends, applies of logged entries, snapshot build, purge not beyond the newest snapshot, \
          snapshot install from a leader that is ahead followed by the purge, deletion of a not yet applied suffix, vote saves); per history: (A) restart after every step and continue on the recovered store, \
-         (B) for every k a fresh run crashed at the boundary after k steps, (C) for every crash point between two RocksDB writes of one operation (hook H6) a fresh run crashed there; \
+         (B) fresh runs crashed at the boundary after k steps (thorough: every k; quick: every k of histories <= 10 steps, else after every purge / snapshot / delete-conflict step, every 4th and the last), (C) for every crash point between two RocksDB writes of one operation (hook H6) a fresh run crashed there; \
          after each restart through RocksStore::open_with_shared_state: shared state == fold of the committed commands up to the recorded applied position, applied position / vote / log / last purged == the values persisted \
          (inside an operation: old or new value per component). non-trivial = a restart with a purged log prefix and applied entries, or after a snapshot install.",
     );
     check.assume("a process crash leaves exactly the RocksDB writes issued so far (WAL in the page cache survives a process crash; power loss is not modelled)");
     check.assume("state_machine::apply_command (judged by C35) defines the state of a command sequence");
-    check.explore("crash_restart", case, 120, 3000, run_case);
+    let all = check.is_thorough() || check.is_replay();
+    check.explore("crash_restart", case, 80, 3000, move |c: &Case| run_case(c, all));
     check.finish();
 }
